@@ -409,6 +409,7 @@ type workItem struct {
 	ob      *Obligation
 	script  string
 	relaxed string // same query with universally quantified hypotheses dropped (sound weakening); tried first
+	sliced  string // hypotheses restricted to the cone of influence of the goal (sound weakening)
 }
 
 func (e *Engine) Discharge(results []*FnResult, timeoutS int, workers int) {
@@ -429,11 +430,24 @@ func (e *Engine) Discharge(results []*FnResult, timeoutS int, workers int) {
 			asserts = r.tb.instantiate(asserts, 2)
 			asserts = append(r.ctx.relevantAxioms(asserts), asserts...)
 			it := workItem{ob: ob, script: r.tb.Script(asserts, true, "ALL")}
-			if !ob.Cover && len(ob.Asserts) == 2 && hasQuant(ob.Asserts[0]) {
-				// hypotheses (path condition) without their quantified conjuncts; the negated goal is kept
-				rel := []*Term{r.tb.dropForalls(ob.Asserts[0], map[int]*Term{}), ob.Asserts[1]}
-				rel = append(r.ctx.relevantAxioms(rel), rel...)
-				it.relaxed = r.tb.Script(rel, false, "ALL")
+			if !ob.Cover && len(ob.Asserts) == 2 {
+				sl := r.tb.sliceHyps(ob.Asserts[0], ob.Asserts[1])
+				if sl != nil {
+					full := []*Term{sl, ob.Asserts[1]}
+					full = r.tb.instantiate(append(r.ctx.relevantAxioms(full), full...), 2)
+					full = append(r.ctx.relevantAxioms(full), full...)
+					it.sliced = r.tb.Script(full, false, "ALL")
+				}
+				if hasQuant(ob.Asserts[0]) {
+					// hypotheses (path condition) without their quantified conjuncts; the negated goal is kept
+					base := ob.Asserts[0]
+					if sl != nil {
+						base = sl
+					}
+					rel := []*Term{r.tb.dropForalls(base, map[int]*Term{}), ob.Asserts[1]}
+					rel = append(r.ctx.relevantAxioms(rel), rel...)
+					it.relaxed = r.tb.Script(rel, false, "ALL")
+				}
 			}
 			items = append(items, it)
 		}
@@ -448,6 +462,12 @@ func (e *Engine) Discharge(results []*FnResult, timeoutS int, workers int) {
 				var sr SolverResult
 				if it.relaxed != "" {
 					sr = Solve(it.relaxed, maxInt(2, timeoutS/3), "z3-new")
+					if sr.Status != "unsat" {
+						sr = SolverResult{Status: "unknown"}
+					}
+				}
+				if sr.Status != "unsat" && it.sliced != "" {
+					sr = Solve(it.sliced, maxInt(3, timeoutS/2), "z3-new")
 					if sr.Status != "unsat" {
 						sr = SolverResult{Status: "unknown"}
 					}
@@ -531,6 +551,14 @@ func (x *FnCtx) relevantAxioms(asserts []*Term) []*Term {
 
 // an axiom is relevant when all its non-constant leaves (vars / uf applications / selects) occur already
 func axiomRelevant(ax *Term, seen map[int]bool) bool {
+	// table-content facts  select(A, const) = const  are relevant as soon as the table A is read
+	if ax.Op == "=" && len(ax.Args) == 2 {
+		for _, side := range ax.Args {
+			if side.Op == "select" && side.Args[1].IsConst() && seen[side.Args[0].ID] {
+				return true
+			}
+		}
+	}
 	rel := false
 	var walk func(t *Term) bool
 	walk = func(t *Term) bool {
